@@ -390,12 +390,12 @@ lemma(
 
 def lemma_avdtp_wrong_count(asm, payload, label, mtype, sid, np, j, cuts):
     """a fragment was dropped or duplicated: START announcing np packets, then j != np-2 continuations, then END"""
-    asm.on_pdu(bytes([header_byte(label, START, mtype), sid, np]) + payload[: cuts[0]])
+    asm.on_pdu(bytes([header_byte(label, START, mtype), sid, np]) + payload[: at(cuts, 0)])
     i = 0
     while i < j:
-        asm.on_pdu(bytes([header_byte(label, CONTINUE, mtype)]) + payload[cuts[i] : cuts[i + 1]])
+        asm.on_pdu(bytes([header_byte(label, CONTINUE, mtype)]) + payload[at(cuts, i) : at(cuts, i + 1)])
         i = i + 1
-    asm.on_pdu(bytes([header_byte(label, END, mtype)]) + payload[cuts[j] :])
+    asm.on_pdu(bytes([header_byte(label, END, mtype)]) + payload[at(cuts, j) :])
 
 
 lemma(
